@@ -318,7 +318,7 @@ func init() {
 		Run: func(c fw.Case, env *fw.Env) *fw.V {
 			return runStep("C03", c, env, conservation)
 		},
-		Rule: "enumerated: all N,M in 1..4 x all N! finishing orders of the upstream tasks x k in 1..3 activations (396 stepwise cases, engine compared with the reference token game at every quiescent step) + pipelined arrivals (two producers delivering two tokens each on their own incoming flow of a 2 x M gateway, all 24 finishing orders, and three tokens each with 240 / 720 + 120 of the 720 orders: the gateway must not release while one incoming flow is empty, however many tokens arrived on the other, and no parked token may be lost) + storm runs with concurrent answers per shape; non-trivial = gateway present and >=2 requests pending at once or a condition routed (all cases with N>1 or M>1, plus loops); distinct = distinct descriptor hash",
+		Rule: "enumerated: all N,M in 1..4 x all N! finishing orders of the upstream tasks x k in 1..3 activations (396 stepwise cases, engine compared with the reference token game at every quiescent step) + pipelined arrivals (two producers delivering two tokens each on their own incoming flow of a 2 x M gateway, all 24 finishing orders, and three tokens each with 240 / 720 + 120 of the 720 orders: the gateway must not release while one incoming flow is empty, however many tokens arrived on the other, and no parked token may be lost) + storm runs with concurrent answers per shape; non-trivial = gateway present and >=2 requests pending at once or a condition routed (all cases with N>1 or M>1, plus loops); distinct = distinct descriptor hash; deep family: eight tokens per incoming flow of a two-way join, one producer first (both directions) and PRNG interleavings",
 		Exhaustive: func(string) bool { return true },
 		Assumptions: []string{"reference token game (internal/refsem) is the oracle for observed requests", "quiescence = all labelled goroutines blocked in one stop-the-world snapshot, twice in a row"},
 	})
